@@ -1248,8 +1248,6 @@ Lemma refuted_broadcast : refutes_d "broadcast" "eval_dyad_add" (VL [VI 1; VI 2]
 Proof. vm_compute. reflexivity. Qed.
 Lemma refuted_reshape_nested : refutes_d "reshape-nested" "eval_dyad_reshape" (VL [VI 2]) (VL [VL [VI 1; VI 2; VI 3]]) = true.
 Proof. vm_compute. reflexivity. Qed.
-Lemma refuted_join_ragged : refutes_d "join-ragged" "eval_dyad_join" m22 a223 = true.
-Proof. vm_compute. reflexivity. Qed.
 Lemma match_ints_without_fix : isclose_gen false (VI 100000) (VI 100001) = true /\ s_same (VI 100000) (VI 100001) = false.
 Proof. vm_compute. split; reflexivity. Qed.
 
@@ -1729,8 +1727,7 @@ Qed.
 
 Lemma forall_leaves_all : forall p a, forall_leaves p a = all_leaves p a.
 Proof.
-  intros p. induction a using val_ind'; try reflexivity.
-  cbn [forall_leaves all_leaves]. apply forallb_ext_in. rewrite Forall_forall in H. exact H.
+  intros p. induction a using val_ind'; reflexivity.
 Qed.
 
 Lemma vec1_ext : forall (f g : val -> res) (p : val -> bool),
@@ -1797,17 +1794,16 @@ Definition join_ragged (a b : val) : bool :=
   all_lists_same_len r && negb (forallb (fun sh => shape_eqb sh (hd None (map npshape r))) (map npshape r)).
 
 Lemma join_holds : forall a b, canonical a && canonical b = true ->
-  dom_dyad "eval_dyad_join" a b = true -> join_ragged a b = false ->
+  dom_dyad "eval_dyad_join" a b = true ->
   norm (VL (members a ++ members b)) = VL (members a ++ members b) ->
   m_dyad "eval_dyad_join" a b = s_dyad "eval_dyad_join" a b.
 Proof.
-  intros a b Hc Hd Hr Hn. unfold m_dyad. rewrite Hc. cbn [negb].
+  intros a b Hc Hd Hn. unfold m_dyad. rewrite Hc. cbn [negb].
   change (m_join a b = s_dyad "eval_dyad_join" a b).
-  unfold join_ragged in Hr.
   destruct a as [z|r|c|s|s|l|]; destruct b as [z'|r'|c'|s'|s'|l'|];
     try discriminate Hd;
     try reflexivity;
-    try (unfold m_join; cbn [text_of members] in *; try rewrite Hr; rewrite Hn; reflexivity).
+    try (unfold m_join; cbn [text_of members] in *; rewrite Hn; reflexivity).
 Qed.
 
 Lemma py_index_in_range : forall l i, 0 <= i < zlen l -> py_index l i = Ok (ix VU l i).
